@@ -53,10 +53,16 @@ def oracle(hist, records):
         usk = engine.user_skipped_closure(spec)
         el = engine.eligible(spec, cfg)
         new_quiet = {}
+        # no failure limit is used in this campaign: the loop never stops early, so every task is reported exactly once,
+        # and a failing exit code needs a failed task
+        order = [engine.name_to_id(r[0]) for r in obs["reports"]]
+        if sorted(order) != sorted(t["id"] for t in spec["tasks"]):
+            bad.append(("report", f"not every task has exactly one report: reported {order}, exit {obs['exit']} "
+                                  f"(persist tasks {[t['id'] for t in spec['tasks'] if 'persist' in t.get('marks', [])]})", None))
+        if obs["exit"] == 1 and "FAIL" not in out.values():
+            bad.append(("exit", f"exit code 1 without any failed task (reports {obs['reports']})", None))
         for t in spec["tasks"]:
             tid = t["id"]
-            if tid not in out:
-                continue
             anc = engine.closure(edges, tid, forward=False)
             otherwise = tid in usk or tid not in el or any(out.get(a) in NOT_REACHED for a in anc)
             v = view(spec, t, rec)
@@ -68,26 +74,26 @@ def oracle(hist, records):
                     STATS["persist-antecedent" + ("-force" if cfg.get("force") else "-dry" if cfg.get("dry") else "")] += 1
                     if tid in ex:
                         bad.append(("persist", f"persist task {tid}: dependencies and products all exist, something changed, but its body was executed", None))
-                    if out[tid] != "PERSISTENCE":
-                        bad.append(("persist", f"persist task {tid}: dependencies and products all exist and something changed, reported {out[tid]} instead of PERSISTENCE", None))
+                    if out.get(tid) != "PERSISTENCE":
+                        bad.append(("persist", f"persist task {tid}: dependencies and products all exist and something changed, reported {out.get(tid)} instead of PERSISTENCE", None))
                     elif not cfg.get("dry"):
                         new_quiet[tid] = v
                 if ins_present and not present and not cfg.get("dry"):
                     STATS["missing-product-antecedent"] += 1
                     if tid not in ex:
-                        bad.append(("missing", f"persist task {tid} has a missing product and is not otherwise skipped, but was not executed (reported {out[tid]})", None))
-                    if out[tid] == "PERSISTENCE":
+                        bad.append(("missing", f"persist task {tid} has a missing product and is not otherwise skipped, but was not executed (reported {out.get(tid)})", None))
+                    if out.get(tid) == "PERSISTENCE":
                         bad.append(("missing", f"persist task {tid} has a missing product but is reported PERSISTENCE", None))
             if otherwise and "persist" in t.get("marks", []):
                 STATS["otherwise-skipped-persist-task"] += 1
                 if tid in ex:
                     bad.append(("wins", f"persist task {tid} is skipped / deselected / behind a failed task but its body ran", None))
-                if out[tid] == "PERSISTENCE":
+                if out.get(tid) == "PERSISTENCE":
                     bad.append(("wins", f"persist task {tid} is skipped / deselected / behind a failed task but is reported PERSISTENCE", None))
             if tid in quiet and not otherwise and not cfg.get("force") and not cfg.get("dry") and quiet[tid] == v:
                 STATS["quiet-antecedent"] += 1
-                if out[tid] != "SKIP_UNCHANGED" or tid in ex:
-                    bad.append(("quiet", f"task {tid} was persisted by the previous build and nothing changed since, but is now reported {out[tid]}"
+                if out.get(tid) != "SKIP_UNCHANGED" or tid in ex:
+                    bad.append(("quiet", f"task {tid} was persisted by the previous build and nothing changed since, but is now reported {out.get(tid)}"
                                          f"{' and executed' if tid in ex else ''}", None))
         if not cfg.get("dry"):
             for t in spec["tasks"]:
